@@ -23,7 +23,9 @@ META = {
     "technique": "exhaustive enumeration of packet crossing orders (event mode, gated wire) on two live transports under a cooperative scheduler, wire-trace oracle",
     "text": "Initiator {client, server} x in-flight peer message M from {DATA, EXTENDED_DATA, WINDOW_ADJUST, channel "
             "requests with/without reply, EOF, CLOSE, GLOBAL_REQUEST with reply, tcpip-forward, CHANNEL_OPEN} (or a user "
-            "thread sending on the initiating side, or keepalives enabled): every order in which the environment can "
+            "thread sending on the initiating side, or keepalives enabled; exchange started by renegotiate_keys() or "
+            "by crossing the send threshold, then also with the first bytes of the peer's packet arriving early "
+            "as a fragment): every order in which the environment can "
             "deliver the packets of the two directions. Between KEXINIT and NEWKEYS a side sends only message "
             "types 1-4, 7 and 20-49; the exchange completes within 35 virtual seconds; both sides stay active; M is "
             "delivered/answered afterwards - once: a further complete exchange on the then idle connection (all "
@@ -88,7 +90,8 @@ def emit(t, ch, kind):
 def make_body(scn, second=None, want_raw=False):
     """second: run one more complete exchange after the first has settled (default: whenever no timers are
     involved) - nothing that was queued for the first exchange may be emitted again by a later one."""
-    initiator, msgs, user_send, keepalive = scn
+    initiator, msgs, user_send, keepalive = scn[:4]
+    trigger = scn[4] if len(scn) > 4 else "explicit"
     if second is None:
         second = not keepalive
 
@@ -110,10 +113,21 @@ def make_body(scn, second=None, want_raw=False):
 
         def rekey():
             try:
-                ti.renegotiate_keys()
+                if trigger == "threshold":
+                    # the exchange is started by the run loop when the send threshold has been crossed
+                    chi.send(b"T")
+                else:
+                    ti.renegotiate_keys()
                 res["rekey"] = "ok"
             except Exception as e:  # noqa
                 res["rekey"] = "raised %s: %s" % (type(e).__name__, str(e)[:80])
+        if trigger == "threshold":
+            # network behaviour: the first bytes of the peer's in-flight packet may already have arrived
+            # (a fragment) when the threshold is crossed
+            if pipe_p2i.inflight and s.choose(2, ("whole-packets", "first-3-bytes-arrived-early"), cost=0) == 1:
+                pipe_p2i.deliver_partial(3)
+                s.quiesce()
+            ti.packetizer.REKEY_BYTES = 1
 
         def usend():
             # a user thread on the initiating side; user_send names the operation (True = send)
@@ -142,6 +156,10 @@ def make_body(scn, second=None, want_raw=False):
         else:
             th.start()
             s.quiesce()
+        if trigger == "threshold":
+            s.advance(0.3)          # the run loop's read times out and finds the re-key flag up
+            s.quiesce()
+            del ti.packetizer.REKEY_BYTES
         order = []
         rounds = 0
         while True:
@@ -275,7 +293,7 @@ def in_kex_violations(tx):
 
 def judge(scn, obs):
     """List of (clause, site) problems."""
-    initiator, msgs, user_send, keepalive = scn
+    initiator, msgs, user_send, keepalive = scn[:4]
     out = []
     uname = "user-send" if user_send in (True, "send") else ("user-%s" % user_send if user_send else None)
     what = "+".join(msgs) if msgs else (uname or "plain")
@@ -328,6 +346,11 @@ def scenarios(tier):
                 if m == "close" and uop == "close":
                     continue
                 out.append((ini, (m,), uop, False))
+        # exchange started by the send threshold (run loop) instead of renegotiate_keys(), with the peer's packet
+        # possibly arriving in two fragments
+        out.append((ini, (), False, False, "threshold"))
+        for m in (("data", "eof", "close", "window-adjust", "global-keepalive") if tier == "quick" else peer_msgs):
+            out.append((ini, (m,), False, False, "threshold"))
         if tier != "quick":
             for i, a in enumerate(peer_msgs):
                 for b in peer_msgs[i + 1:]:
@@ -359,7 +382,8 @@ def run_items(items, acc):
                 # a connection-layer packet was handled by a side that was in kex?
                 acc.nt((scn, obs["order"]))
             for clause, site in judge(scn, obs):
-                acc.violation("%s:%s:%s-initiates" % (clause, site, "client" if scn[0] == "c" else "server"),
+                acc.violation("%s:%s:%s-initiates%s" % (clause, site, "client" if scn[0] == "c" else "server",
+                                                        "-by-send-threshold" if len(scn) > 4 and scn[4] == "threshold" else ""),
                               {"scn": scn, "order": list(obs["order"]), "rekey": obs["rekey"], "active": obs["active"],
                                "tx_initiator": [F.mname(t) for t in obs["tx_i"]],
                                "tx_peer": [F.mname(t) for t in obs["tx_p"]], "exc": (obs["exc_i"], obs["exc_p"]),
@@ -394,7 +418,7 @@ def main(tier):
 def replay(rec):
     r = rec["replay"]
     scn = r["scn"]
-    scn = (scn[0], tuple(scn[1]), scn[2], scn[3])
+    scn = (scn[0], tuple(scn[1]), scn[2], scn[3]) + tuple(scn[4:])
     ex = explore.replay(make_body(scn), r["choices"], "delay", {"horizon": S.EPOCH + 400, "step_budget": 3_000_000})
     print(ex.outcome, ex.error)
     if ex.outcome != "ok":
